@@ -7,9 +7,10 @@
 (* C11Trace recomputes ErrTable[Abs(row)] from what the harness reports it called.    *)
 EXTENDS C11Abs, TLC, Json, IOUtils, SequencesExt
 
-Row(ep, p, q, zs, cnt, ct, fr, b, mg) ==
+RowS(ep, p, q, zs, cnt, ct, fr, b, mg, sh) ==
   [ep |-> ep, p |-> p, q |-> q, zs |-> zs, cnt |-> cnt, ct |-> ct, fr |-> fr, b |-> b,
-   m |-> mg[1], x |-> mg[2], sg |-> mg[3], ax |-> mg[4], pos |-> mg[5]]
+   m |-> mg[1], x |-> mg[2], sg |-> mg[3], ax |-> mg[4], pos |-> mg[5], sh |-> sh]
+Row(ep, p, q, zs, cnt, ct, fr, b, mg) == RowS(ep, p, q, zs, cnt, ct, fr, b, mg, 0)
 
 B(s) == IF s < 0 THEN -s ELSE 0              \* unit exponent so that the unit survives a scale of 10^s
 Plain == <<0, 0, 1, 0, 0>>
@@ -23,7 +24,14 @@ MagBeyond(s, multi) ==
   \cup {<<1, k - s, -1, 1, IF multi THEN 1 ELSE 0>> : k \in {60, 300}}
 MagInvalidPrec(s) == {Plain, <<1, 19 - s, 1, 0, 0>>}
 
-MultiEPs == ObjEPs \cup BoolFreeEPs \cup {"Union1D", "InflatePathsD", "RectClipD", "RectClipLinesD"}
+MultiEPs == ObjEPs \cup BoolFreeEPs \cup {"Union1D", "InflatePathsD", "InflateOpenD", "RectClipD", "RectClipLinesD"}
+(* degenerate shapes (bounding box without area): in range up to 9*10^17 and beyond at 10^19, every side; *)
+(* for a segment in a multi-path entry point also behind a second collinear segment (pos = 2)            *)
+ShapeMags(s, sh, multi) ==
+       {<<9, 17 - s, sd[1], sd[2], 0>> : sd \in Sides}
+  \cup {<<1, 19 - s, sd[1], sd[2], ps>> : sd \in Sides, ps \in IF multi /\ sh = 1 THEN {0, 2} ELSE {0}}
+  \cup {<<1, 300 - s, 1, 0, 0>>, <<1, 300 - s, -1, 1, 0>>}
+ShapePrecs == {-8, 0, 2, 8}
 
 PrecRows ==
   UNION {{Row(ep, p, 0, 0, 0, 2, 1, B(Clamp(p)), mg) :
@@ -42,6 +50,13 @@ EcMags(ep, q, zs) ==
 EcRows == UNION {{Row(ep, 0, q, zs, 0, 2, 1, B(q), mg) : mg \in IF zs \in ZSs(ep) THEN EcMags(ep, q, zs) ELSE {}} :
                    ep \in EcEPs, q \in {-3, 0, 4}, zs \in 0..3}
 
+ShapeRows ==
+  UNION {{RowS(ep, p, 0, 0, 0, 2, 1, B(p), mg, sh) : mg \in ShapeMags(p, sh, ep \in MultiEPs)} :
+         ep \in ObjEPs \cup FreeEPs, p \in ShapePrecs, sh \in 1..3}
+  \cup UNION {{RowS(ep, 0, q, 0, 0, 2, 1, B(q), mg, sh) :
+                 mg \in {g \in ShapeMags(q, sh, IsSPS(ep)) : ~IntSrc(ep) \/ FitsI64(g)}} :
+               ep \in EcIntEPs, q \in {0, 4}, sh \in 1..3}
+
 MkRows == {Row(ep, 0, 0, 0, cnt, 2, 1, 0, Plain) : ep \in MkEPs, cnt \in 0..9}
 
 CRows ==
@@ -52,7 +67,7 @@ CRows ==
   \cup {Row(ep, p, 0, 0, 0, ct, fr, B(Clamp(p)), Plain) : ep \in CIntDEPs, p \in PrecAll, ct \in CtFew, fr \in FrFew}
   \cup {Row(ep, p, 0, 0, 0, 2, 1, B(Clamp(p)), Plain) : ep \in CPtrEPs, p \in PrecAll}
 
-Rows == PrecRows \cup EcRows \cup MkRows \cup CRows
+Rows == PrecRows \cup ShapeRows \cup EcRows \cup MkRows \cup CRows
 
 AllOK == \A r \in Rows : AbsOK(r)
 CoverDom == \A exc \in Excs : {Abs(r, exc) : r \in Rows} = {a \in Dom : a.exc = exc}
